@@ -1,5 +1,6 @@
 import IpamVerif.System
 import IpamVerif.Facts
+import IpamVerif.Pending
 /-!
 # C11 — when changes stop the controller converges; failed items are queued again
 
@@ -57,5 +58,20 @@ theorem refusal_is_error (s : Sys) (n : NodeObj) (refresh : Bool) (ws : List WOu
 theorem workerLoopsRequeue : Facts.workerLoops =
     [("processNextCIDRWorkItem", true, true), ("processNextNodeWorkItem", true, true)] := by decide
 
+
+/-- **C11, the safety half, over whole histories**: from the empty controller, through any history in which no object is
+re-created under a name the cache still holds — restarts, failed and lost writes, label edits, foreign writers, duplicate
+and late notifications included — whenever the queues are empty and the caches are current, every node that is not
+being deleted has pod CIDRs, every ClusterCIDR under deletion has been released and every other one carries the
+finalizer.  Unserved nodes and unfinished ClusterCIDRs are never dropped: they stay queued (`Pending.Pend`). -/
+theorem steady_state_is_the_intended_one (evs : List Ev) (hf : Pending.Frag2All Sys.init evs)
+    (hnq : (run Sys.init evs).nodeQ = []) (hcq : (run Sys.init evs).ccQ = [])
+    (hn : ∀ x, getNode (run Sys.init evs).nodeView x = getNode (run Sys.init evs).api.nodes x)
+    (hc : ∀ x, getCC (run Sys.init evs).ccView x = getCC (run Sys.init evs).api.ccs x) :
+    (∀ x y, getNode (run Sys.init evs).api.nodes x = some y → y.deleting = false → y.hasCidrs = true) ∧
+    (∀ x o, getCC (run Sys.init evs).api.ccs x = some o →
+      (o.deleting = true → hasFin o = false) ∧ (o.deleting = false → hasFin o = true)) := by
+  have h := Pending.pend_run evs Sys.init Pending.pend_init hf
+  exact ⟨Pending.quiescent_nodes_served h hnq hn, Pending.quiescent_ccs_done h hcq hc⟩
 
 end Ipam.C11
